@@ -372,7 +372,7 @@ static Outcome run_forked(const Clause& cl, const std::vector<uint64_t>& words, 
 	return o;
 }
 
-bool run_in_child(const std::function<std::vector<double>()>& f, std::vector<double>& result, double timeout_s)
+bool run_in_child(const std::function<std::vector<double>()>& f, std::vector<double>& result, double timeout_s, int* wait_status)
 {
 	int pfd[2];
 	if(pipe(pfd) != 0)
@@ -429,6 +429,8 @@ bool run_in_child(const std::function<std::vector<double>()>& f, std::vector<dou
 		kill(pid, SIGKILL);
 	int st = 0;
 	waitpid(pid, &st, 0);
+	if(wait_status)
+		*wait_status = timedout ? -1 : st;
 	if(timedout || !(WIFEXITED(st) && WEXITSTATUS(st) == 0) || buf.size() < 8)
 		return false;
 	uint64_t n;
